@@ -313,6 +313,32 @@ template <int ID> struct WithPlan<ID, false> : Own<ID> {
 };
 
 template <int ID> struct St : WithPlan<ID, isDefPlan(ID)> {};
+// states that define only some of the methods (fixture config `overrides`): explicit specialisations generated by
+// engine/gen.py; their bodies go through forwarders defined below, so that nothing instantiates the machine (and with
+// it the primary St<>) before every specialisation has been seen
+#ifdef FX_SPECIALISATIONS
+static void fwd(typename FSM::State::GuardControl& c, int id, int m, const void* self);
+static void fwd(typename FSM::State::PlanControl&  c, int id, int m, const void* self);
+static void fwd(typename FSM::State::FullControl&  c, int id, int m, const void* self);
+static void fwd(typename FSM::State::EventControl& c, int id, int m, const void* self);
+static void fwd(typename FSM::State::ConstControl& c, int id, int m, const void* self);
+static int  fwdSelect(const typename FSM::State::Control& c, int id);
+#ifdef HFSM2_ENABLE_UTILITY_THEORY
+static int  fwdRank(const typename FSM::State::Control& c, int id);
+static vf::Rational fwdUtility(const typename FSM::State::Control& c, int id);
+#endif
+FX_SPECIALISATIONS
+static void fwd(typename FSM::State::GuardControl& c, int id, int m, const void* self) { probeCall(c, id, m, self, false); }
+static void fwd(typename FSM::State::PlanControl&  c, int id, int m, const void* self) { probeCall(c, id, m, self, false); }
+static void fwd(typename FSM::State::FullControl&  c, int id, int m, const void* self) { probeCall(c, id, m, self, false); }
+static void fwd(typename FSM::State::EventControl& c, int id, int m, const void* self) { probeCall(c, id, m, self, false); }
+static void fwd(typename FSM::State::ConstControl& c, int id, int m, const void* self) { probeCall(c, id, m, self, false); }
+static int  fwdSelect(const typename FSM::State::Control& c, int id) { probeReport(c, id, M_SELECT); return c._()->probe->sc.sel[id] - 1; }
+#ifdef HFSM2_ENABLE_UTILITY_THEORY
+static int  fwdRank(const typename FSM::State::Control& c, int id) { probeReport(c, id, M_RANK); return c._()->probe->sc.rank[id]; }
+static vf::Rational fwdUtility(const typename FSM::State::Control& c, int id) { probeReport(c, id, M_UTILITY); return c._()->probe->sc.util[id]; }
+#endif
+#endif
 
 struct AccessVisitor { void* instance; int want; const void* out;
 	template <int ID> void visit() { if (ID == want) out = &static_cast<FSM::Instance*>(instance)->template access<St<ID>>(); } };
